@@ -2082,6 +2082,85 @@ silent_all("second-message-error-guard-clause", [
 					return cs.rErr"""},
 ], "the >1-response branch written with a guard clause", ["C08", "C02", "C05", "C07"])
 
+v("C07", "closure-by-nil-element", "httpgrpc/client.go", None, None, "R4", "closure-by-ok", "the end of the reply is inferred from a nil element, and an empty message is sent as nil", edits=[
+    {"file": "httpgrpc/client.go", "old": """	case msg, ok := <-cs.rCh:
+		if !ok {
+			done, err := cs.readErrorIfDone()""", "new": """	case msg := <-cs.rCh:
+		if msg == nil {
+			done, err := cs.readErrorIfDone()"""},
+    {"file": "httpgrpc/client.go", "old": """		msg := make([]byte, sz)
+		_, rErr = io.ReadAtLeast(reply.Body, msg, int(sz))
+		if rErr != nil {
+			if rErr == io.EOF {
+				rErr = io.ErrUnexpectedEOF
+			}
+			return
+		}
+""", "new": """		var msg []byte
+		if sz > 0 {
+			msg = make([]byte, sz)
+			_, rErr = io.ReadAtLeast(reply.Body, msg, int(sz))
+			if rErr != nil {
+				if rErr == io.EOF {
+					rErr = io.ErrUnexpectedEOF
+				}
+				return
+			}
+		}
+"""},
+])
+silent_all("closure-by-nil-element-senders-never-nil", [
+    {"file": "httpgrpc/client.go", "old": """	case msg, ok := <-cs.rCh:
+		if !ok {
+			done, err := cs.readErrorIfDone()""", "new": """	case msg := <-cs.rCh:
+		if msg == nil {
+			done, err := cs.readErrorIfDone()"""},
+], "closure inferred from a nil element while every sender sends make([]byte, n): equivalent", ["C07", "C08", "C02", "C05", "C11"])
+
+v("C02", "status-message-taken-only-if-nonempty", "httpgrpc/client.go",
+  """		if len(codeStrs) > 1 {
+			msg = codeStrs[1]
+		}""", """		if len(codeStrs) > 1 && codeStrs[1] != "" {
+			msg = codeStrs[1]
+		}""", "R3", "presence-not-content", "the parsed status message replaces the HTTP status text only if non-empty")
+v("C02", "status-message-taken-only-if-nonempty-in-helper", "httpgrpc/client.go",
+  """		if len(codeStrs) > 1 {
+			msg = codeStrs[1]
+		}""", """		if len(codeStrs) > 1 && len(codeStrs[1]) > 0 {
+			msg = codeStrs[1]
+		}""", "R3", "presence-not-content", "the same inside the extracted helper of refactoring C2-r1", patch="refactors/C2-r1/patch.diff")
+
+v("C03", "trailer-accessor-decodes-on-its-own", "httpgrpc/client.go",
+  """		return metadataFromProto(cs.tr.Metadata)
+	}
+	return nil""", """		md := metadataFromProto(cs.tr.Metadata)
+		for k, vs := range md {
+			if strings.HasSuffix(k, "-bin") {
+				out := make([]string, len(vs))
+				for i, v := range vs {
+					out[i] = strings.TrimRight(v, "=")
+				}
+				md[k] = out
+			}
+		}
+		return md
+	}
+	return nil""", "R4", "result-not-rewritten", "Trailer() post-processes the converter's result; the Trailer call option gets the raw one")
+
+v("C05", "send-waits-behind-receive", "inprocgrpc/in_process.go",
+  """func (s *inProcessClientStream) SendMsg(m interface{}) error {
+	s.reqMu.Lock()""", """func (s *inProcessClientStream) finished() bool {
+	s.respMu.Lock()
+	defer s.respMu.Unlock()
+	return s.state == streamStateClosed
+}
+
+func (s *inProcessClientStream) SendMsg(m interface{}) error {
+	if s.finished() {
+		return io.EOF
+	}
+	s.reqMu.Lock()""", "R4", "send-does-not-wait-for-receive", "SendMsg consults the receive side's state under respMu, which RecvMsg holds while blocked")
+
 # ------------------------------------------------------------------ wave-2 rules (C15-C20)
 v("C15", "methods-scratch-slice-reused", "server.go",
   """	for _, svc := range m {
